@@ -282,6 +282,10 @@ def job_conn(spec):
             v, m, _ = eng.prove(path, z3.Or(z3.And(e, d.e > thr + mg), z3.And(z3.Not(e), d.e < thr - mg)))
             w = None if m is None else {"d": float(m.eval(d.e, model_completion=True).as_fraction()), "axis": axis, "which": nm}
             res["verdicts"].append({"ob": f"{nm} differs from O3'-P distance < 2.4 A (1e-6 band)", "v": v, "key": "is_connected:threshold", "w": w})
+        # exact agreement of the two readers (no band): the thresholds are the doubles the code computes, taken as exact rationals
+        v, m, _ = eng.prove(path, z3.Xor(e1, e2))
+        w = None if m is None else {"d": float(m.eval(d.e, model_completion=True).as_fraction()), "axis": axis, "which": "agreement"}
+        res["verdicts"].append({"ob": "the two readers disagree on connectivity for some O3'-P distance", "v": v, "key": "is_connected:agreement", "w": w})
     res.update(queries=eng.nq, solver_s=round(eng.tq, 2), unknown=eng.unknown, wall_s=round(time.time() - t0, 2))
     return res
 
@@ -298,6 +302,16 @@ def df(name, p, num):
     d = pd.DataFrame([dict(record_type="ATOM", serial=1, name=name, altLoc=None, resName="G", chainID="A", resSeq=num, iCode=None, x=p[0], y=p[1], z=p[2],
                            occupancy=1.0, tempFactor=0.0, element="O", charge=None, model=1)]); d.attrs["format"] = "PDB"; return d
 c1 = r1.is_connected(r2); c2 = T2.Residue(df("O3'", p1, 1)).is_connected(T2.Residue(df("P", p2, 2)))
+if w["which"] == "agreement":
+    # any placement whose computed distance falls between the two thresholds shows the disagreement
+    for base in range(0, 40):
+        for ax in range(3):
+            q1 = [float(base), float(base) + 1.0, float(base) + 2.0]; q2 = list(q1); q2[ax] = round(q2[ax] + w["d"], 3)
+            r1 = T1.Residue3D(None, a1, 1, "G", (T1.Atom(None, None, a1, 1, "O3'", *q1, 1.0),)); r2 = T1.Residue3D(None, a2, 1, "C", (T1.Atom(None, None, a2, 1, "P", *q2, 1.0),))
+            c1 = r1.is_connected(r2); c2 = T2.Residue(df("O3'", q1, 1)).is_connected(T2.Residue(df("P", q2, 2)))
+            if bool(c1) != bool(c2):
+                print("O3' at", q1, "P at", q2, ": residue-level reader says", c1, ", table-level reader says", c2); sys.exit(1)
+    sys.exit(0)
 print("d", w["d"], "v1", c1, "v2", c2, "definition", w["d"] < 2.4)
 sys.exit(1 if (bool(c1) != (w["d"] < 2.4) or bool(c2) != (w["d"] < 2.4)) else 0)
 '''
